@@ -45,6 +45,7 @@ import (
 type vc02Params struct {
 	Kind     string `json:"kind"` // absent | prefix | generic | typednil
 	PrefixID int32  `json:"prefix_id"`
+	Force    bool   `json:"force"` // store the params object as is, without the transport's ParseParams
 }
 type vc02Object struct {
 	Secret    string     `json:"secret"`
@@ -351,13 +352,26 @@ func (w *vc02World) buildObject(i int, o vc02Object) {
 			return
 		}
 	} else {
-		params, err := tr.ParseParams(o.LibVer, anyParams)
+		var params any
+		if !o.Params.Force {
+			params, err = tr.ParseParams(o.LibVer, anyParams)
+		}
 		if err != nil {
 			oo.Err = "params: " + err.Error()
 			return
 		}
 		if o.Params.Kind == "typednil" {
 			params = (*pb.PrefixTransportParams)(nil)
+		}
+		if o.Params.Force {
+			switch o.Params.Kind {
+			case "prefix":
+				params = &pb.PrefixTransportParams{PrefixId: proto.Int32(o.Params.PrefixID)}
+			case "generic":
+				params = &pb.GenericTransportParams{RandomizeDstPort: proto.Bool(false)}
+			case "absent":
+				params = nil
+			}
 		}
 		src := pb.RegistrationSource_API
 		var trI Transport = tr
